@@ -101,7 +101,8 @@ func (cj *CookieJar) getCookiesByHost(host string) []*fasthttp.Cookie {
 			fasthttp.ReleaseCookie(c)
 			i--
 			// keep the jar in step with the purge: a released cookie must not stay referenced
-			cj.hostCookies[host] = cookies
+			// (the key is copied: assigning a map entry replaces the stored key string)
+			cj.hostCookies[utils.CopyString(host)] = cookies
 		}
 	}
 
@@ -134,11 +135,10 @@ func (cj *CookieJar) SetByHost(host []byte, cookies ...*fasthttp.Cookie) {
 		cj.hostCookies = make(map[string][]*fasthttp.Cookie)
 	}
 
-	hostCookies, ok := cj.hostCookies[hostStr]
-	if !ok {
-		// If the key does not exist in the map, make a copy to avoid unsafe usage.
-		hostStr = string(host)
-	}
+	// Assigning a map entry replaces the stored key string, so never store
+	// under a view of the caller's buffer: always make a copy of the key.
+	hostCookies := cj.hostCookies[hostStr]
+	hostStr = string(host)
 
 	for _, cookie := range cookies {
 		existing := searchCookieByKeyAndPath(cookie.Key(), cookie.Path(), hostCookies)
@@ -195,11 +195,10 @@ func (cj *CookieJar) parseCookiesFromResp(host, path []byte, resp *fasthttp.Resp
 		cj.hostCookies = make(map[string][]*fasthttp.Cookie)
 	}
 
-	cookies, ok := cj.hostCookies[hostStr]
-	if !ok {
-		// If the key does not exist in the map, make a copy to avoid unsafe usage.
-		hostStr = string(host)
-	}
+	// Assigning a map entry replaces the stored key string, so never store
+	// under a view of the caller's buffer: always make a copy of the key.
+	cookies := cj.hostCookies[hostStr]
+	hostStr = string(host)
 
 	now := time.Now()
 	resp.Header.VisitAllCookie(func(key, value []byte) {
